@@ -50,6 +50,13 @@ def real_stat(pg, coal, name, rewards, center, end_time=None):
     return float(coal.moment(k=len(rs), rewards=tuple(rs), center=center, permute=True, **kw))
 
 
+def model_horizon(cfg, T):
+    """The statement is about the moments of the process itself: with no end time given, the model integrates 64 times
+    further than the horizon the real code chose for itself, so a horizon that stops short of absorption (without the
+    warning that makes the case a skipped one) shows up as a difference instead of being inherited by the oracle."""
+    return C.frac(T) * (64 if cfg.get('end_time') is None else 1)
+
+
 def compare(ctx, cfg, coal, pg, T, dim_max, rng, label=''):
     drv = C.driver()
     k_states = conv.setup_model(drv, cfg, 'lc')
@@ -106,7 +113,7 @@ def one(ctx, i):
     ctx.count('end_time' if cfg.get('end_time') is not None else 'default-horizon')
     if cfg.get('start_time'):
         ctx.count('start_time')
-    compare(ctx, cfg, coal, pg, C.frac(T), 45 if quick else 120, rng)
+    compare(ctx, cfg, coal, pg, model_horizon(cfg, T), 45 if quick else 120, rng)
 
 
 def run(ctx):
@@ -120,4 +127,4 @@ def replay(ctx, payload):
     cfg = conv.cfg_from_json(payload['cfg'])
     coal = conv.make_coalescent(pg, cfg)
     T = coal.tree_height.t_max
-    compare(ctx, cfg, coal, pg, C.frac(T), 400, random.Random(0))
+    compare(ctx, cfg, coal, pg, model_horizon(cfg, T), 400, random.Random(0))
